@@ -1,6 +1,7 @@
 package main
 
 import (
+	"regexp"
 	"fmt"
 	"os"
 	"path/filepath"
@@ -335,6 +336,18 @@ func checkFormatMeaning(res *Result, before string, after string, gen0 CLIResult
 		if headerNoBlank {
 			shape = "format_header_duplicated"
 		}
+		// the recorded deviations (C10-formatter-drops-text) explain the difference only if applying
+		// exactly them to the input gives the output; anything else (e.g. lines lost) is a new violation
+		explained := knownFormatDeviations(before, hasHeader(b))
+		sameAsKnown := len(explained) == len(a)
+		if sameAsKnown {
+			for i := range a {
+				if a[i] != explained[i] {
+					sameAsKnown = false
+					break
+				}
+			}
+		}
 		if stripWS(strings.ReplaceAll(strings.ReplaceAll(before, "\r", ""), stdHeader, "")) == "" {
 			shape = "format_blank_or_header_only_text"
 		}
@@ -355,6 +368,14 @@ func checkFormatMeaning(res *Result, before string, after string, gen0 CLIResult
 				shape = "format_blockstart_drops_rest"
 			}
 		}
+		if !sameAsKnown && (shape == "format_blanks_unbalanced_end" || shape == "format_blockstart_drops_rest" || shape == "format_drops_empty_pair_separator") {
+			if headerNoBlank {
+				shape = "format_header_duplicated" // the duplicated header shifts every line
+			} else {
+				shape = "format_changes_text"
+				detail += " (not explained by the recorded deviations)"
+			}
+		}
 		res.addFailure(Failure{Kind: "C10", Shape: shape, Input: input, Detail: detail})
 	}
 	g0, g1 := exitClass(gen0), exitClass(gen1)
@@ -366,4 +387,59 @@ func checkFormatMeaning(res *Result, before string, after string, gen0 CLIResult
 		res.addFailure(Failure{Kind: "C10", Shape: shape, Input: input,
 			Detail: fmt.Sprintf("generate before: %s %q, after: %s %q", g0, clip(gen0.Stdout, 200), g1, clip(gen1.Stdout, 200))})
 	}
+}
+
+var (
+	kBlockStart = regexp.MustCompile(`^##!>\s*(assemble|cmdline)\s*(\S+)?`)
+	kBlockEnd   = regexp.MustCompile(`^##!<`)
+	kInclude    = regexp.MustCompile(`^##!>\s*include\s+(\S+)(?:\s*--\s*(.*?))?\s*$`)
+	kIncludeEx  = regexp.MustCompile(`^##!>\s*include-except\s+(\S+)\s*(.*?)(?:\s*--\s*(.*?))?\s*$`)
+)
+
+// the white-space-stripped line sequence the RECORDED deviations of the formatter produce from the
+// input: text after a block start is dropped, an end marker without open block becomes an empty
+// line, a "--" that is followed by no pairs is dropped; everything else is kept
+func knownFormatDeviations(before string, hadHeader bool) []string {
+	var out []string
+	depth := 0
+	for _, l := range strings.Split(before, "\n") {
+		t := strings.TrimLeft(strings.TrimSuffix(l, "\r"), " \t")
+		switch {
+		case kBlockStart.MatchString(t):
+			m := kBlockStart.FindStringSubmatch(t)
+			x := "##!> " + m[1]
+			if m[2] != "" {
+				x += " " + m[2]
+			}
+			out = append(out, stripWS(x))
+			depth++
+		case kBlockEnd.MatchString(t):
+			if depth == 0 {
+				out = append(out, "")
+			} else {
+				depth--
+				out = append(out, stripWS(t))
+			}
+		case kInclude.MatchString(t):
+			m := kInclude.FindStringSubmatch(t)
+			x := "##!> include " + m[1]
+			if m[2] != "" {
+				x += " -- " + m[2]
+			}
+			out = append(out, stripWS(x))
+		case kIncludeEx.MatchString(t):
+			m := kIncludeEx.FindStringSubmatch(t)
+			x := "##!> include-except " + m[1] + " " + m[2]
+			if m[3] != "" {
+				x += " -- " + m[3]
+			}
+			out = append(out, stripWS(x))
+		default:
+			out = append(out, stripWS(l))
+		}
+	}
+	for len(out) > 0 && out[len(out)-1] == "" {
+		out = out[:len(out)-1]
+	}
+	return out
 }
